@@ -217,8 +217,51 @@ class ReturnTemp(ast.NodeTransformer):
         return node
 
 
+class AugToAssign(ast.NodeTransformer):
+    """c += 1  ->  c = c + 1   (plain names with a numeric constant: a rebinding either way)"""
+
+    def visit_AugAssign(self, node):
+        if isinstance(node.target, ast.Name) and isinstance(node.value, ast.Constant) and isinstance(node.value.value, (int, float)) \
+                and not isinstance(node.value.value, bool):
+            return ast.copy_location(ast.Assign(targets=[ast.Name(id=node.target.id, ctx=ast.Store())],
+                                                value=ast.BinOp(left=ast.Name(id=node.target.id, ctx=ast.Load()), op=node.op, right=node.value)), node)
+        return node
+
+
+class KwargsReordered(ast.NodeTransformer):
+    """f(a, x=1, y=2) -> f(a, y=2, x=1)"""
+
+    def visit_Call(self, node):
+        self.generic_visit(node)
+        fname = node.func.attr if isinstance(node.func, ast.Attribute) else node.func.id if isinstance(node.func, ast.Name) else ""
+        if fname in ("agg", "aggregate", "assign", "dict", "OrderedDict", "DataFrame", "namedtuple", "fill"):
+            return node  # keyword order is data here (column / key order of the result)
+        if len(node.keywords) > 1 and all(k.arg is not None for k in node.keywords):
+            node.keywords = list(reversed(node.keywords))
+        return node
+
+
+class ExplicitElse(ast.NodeTransformer):
+    """if c: return A            if c: return A
+       <rest>              ->    else: <rest>          (when the if-body ends in return/raise and there is no else)"""
+
+    def _fix(self, body):
+        for i, st in enumerate(body):
+            if isinstance(st, ast.If) and not st.orelse and st.body and isinstance(st.body[-1], (ast.Return, ast.Raise)) and i + 1 < len(body) \
+                    and not any(isinstance(x, (ast.FunctionDef, ast.ClassDef)) for x in body[i + 1:]):
+                st.orelse = self._fix(body[i + 1:])
+                return body[:i + 1]
+        return body
+
+    def visit_FunctionDef(self, node):
+        self.generic_visit(node)
+        node.body = self._fix(node.body)
+        return node
+
+
 TWINS = {"renamed-locals": [Renamer], "mirrored-comparisons": [Commuter], "values-to_numpy": [ValuesTwin], "swapped-branches": [BranchSwap],
-         "return-through-temporary": [ReturnTemp]}
+         "return-through-temporary": [ReturnTemp], "augmented-to-plain-assignment": [AugToAssign], "keywords-reordered": [KwargsReordered],
+         "explicit-else-after-return": [ExplicitElse]}
 
 
 def make_twin(repo, transformers, only_files):
